@@ -947,6 +947,7 @@ def col_of(T, t, frame):
 
 
 FLIP = {"Gt": "Lt", "Lt": "Gt", "GtE": "LtE", "LtE": "GtE", "Eq": "Eq", "NotEq": "NotEq"}
+NEGATE = {"Gt": "LtE", "Lt": "GtE", "GtE": "Lt", "LtE": "Gt", "Eq": "NotEq", "NotEq": "Eq"}
 SYM = {"Gt": ">", "Lt": "<", "GtE": ">=", "LtE": "<=", "Eq": "==", "NotEq": "!="}
 
 
@@ -973,6 +974,9 @@ def classify_filter(L, node):
                 return ("cn", op, r.value)
         raise Unsupported("query(%r) is not a recognised filter idiom" % const_str(node[3][0]))
     mask = info
+    if isinstance(mask, tuple) and mask[0] == "op" and mask[1] in ("Invert", "Not") and len(mask[2]) == 1 and mask[2][0][0] == "cmp" and mask[2][0][1] in NEGATE:
+        inner = mask[2][0]
+        mask = ("cmp", NEGATE[inner[1]], inner[2], inner[3])
     if not (isinstance(mask, tuple) and mask[0] == "cmp" and mask[1] in FLIP):
         raise Unsupported("row filter with an unrecognised mask: %s" % show(mask, 3))
     op, l, r = mask[1], mask[2], mask[3]
@@ -1035,6 +1039,48 @@ def _size_only_test(test):
     return True
 
 
+def _some_row_test(test):
+    """The mask M if `test` says "at least one row satisfies M" (M.sum() > 0, sum(M) != 0, M.any() ...), else None."""
+    if test[0] == "method" and test[2] == "any" and not test[3]:
+        return test[1]
+    if test[0] == "cmp":
+        for a, b, o in ((test[2], test[3], test[1]), (test[3], test[2], FLIP.get(test[1]))):
+            if b[0] == "const" and ((b[1] == 0 and o in ("Gt", "NotEq")) or (b[1] == 1 and o == "GtE")):
+                if a[0] == "method" and a[2] == "sum" and not a[3]:
+                    return a[1]
+                if a[0] == "call" and a[1] in ("sum", ("global", "sum")) and len(a[2]) == 1:
+                    return a[2][0]
+    return None
+
+
+def _is_complement(mask, of):
+    return mask[0] == "op" and mask[1] in ("Invert", "Not") and len(mask[2]) == 1 and (mask[2][0] is of or mask[2][0] == of)
+
+
+def _as_unconditional(T, n):
+    """The row filter of `if M.any(): df = df[~M]` (a condnode): without a row in M the filter keeps every row,
+    so it is the unconditional filter by ~M.  None for any other conditional."""
+    some = _some_row_test(n[1])
+    steps = ("rowfilter", "merge", "group")
+    if some is None or [m for m in n[3] if m[0] == "condnode" or T.kind(m)[0] in steps]:
+        return None
+    fs = [m for m in n[2] if m[0] == "condnode" or T.kind(m)[0] in steps]
+    if len(fs) == 1 and fs[0][0] != "condnode" and T.kind(fs[0])[0] == "rowfilter" and _is_complement(T.kind(fs[0])[2], some):
+        return fs[0]
+    return None
+
+
+def _plain(T, chain):
+    """The unconditional steps of a chain, `if M.any(): df = df[~M]` counted as its filter."""
+    for n in chain:
+        if n[0] == "condnode":
+            f = _as_unconditional(T, n)
+            if f is not None:
+                yield f
+        else:
+            yield n
+
+
 def rule_L1(ctx, L):
     T = L.T
     fi = L.fi
@@ -1042,6 +1088,10 @@ def rule_L1(ctx, L):
     filters = []
     for n in T.chain(L.frame):
         if n[0] == "condnode":
+            f = _as_unconditional(T, n)
+            if f is not None:
+                filters.append((f, classify_filter(L, f)))
+                continue
             for arm in (n[2], n[3]):
                 for m in arm:
                     if m[0] != "condnode" and T.kind(m)[0] == "rowfilter" and _size_only_test(n[1]):
@@ -1114,8 +1164,8 @@ def rule_L1(ctx, L):
     # (3) samples computed after the copy-number filter, before the group filter; (4) group filter runs on the copy-number-filtered frame
     r_frame, r_col, _ = seq_source(T, L.samples)
     ch = T.chain(r_frame)
-    has_cn = any(n[0] != "condnode" and T.kind(n)[0] == "rowfilter" and classify_filter(L, n)[0] == "cn" for n in ch)
-    has_gr = any(n[0] != "condnode" and T.kind(n)[0] == "rowfilter" and classify_filter(L, n)[0] == "group" for n in ch)
+    has_cn = any(T.kind(n)[0] == "rowfilter" and classify_filter(L, n)[0] == "cn" for n in _plain(T, ch))
+    has_gr = any(T.kind(n)[0] == "rowfilter" and classify_filter(L, n)[0] == "group" for n in _plain(T, ch))
     why = None
     if r_col != "sample_id":
         why = "samples are the values of column %r" % r_col
@@ -1128,7 +1178,7 @@ def rule_L1(ctx, L):
     if cn and gr:
         gbase = T.kind(gr[0][0])[1]
         chg = T.chain(gbase)
-        ok = any(n is cn[0][0] or n == cn[0][0] for n in chg if n[0] != "condnode")
+        ok = any(n is cn[0][0] or n == cn[0][0] for n in _plain(T, chg))
     if True:
         ctx.check(ok, "L1", "group filter runs on the copy-number-filtered frame", where, "the group-size filter runs before the copy-number filter: a mutation with a zero-copy-number row in one sample survives with a row missing", construct=construct, stmt="filter order")
     ctx.analysed(*L.flow.inlined)
@@ -1672,6 +1722,13 @@ def _contains(t, needle, _seen=None):
 def run(ctx):
     ctx.assume("pandas semantics of read_table/read_csv, boolean masks, groupby/transform('size'), sort_values, set_index/.at, to_dict are the documented ones")
     ctx.assume("the optional loss-probability assignment (_assign_out_prob) is outside the claim; it is treated as an order-preserving column assignment")
+    # "depends only on the table": nothing a load computes is remembered across rows / loads under a key that forgets an
+    # input (same rule object as C14.K7)
+    from ..formula import imported
+    from . import C14
+
+    ctx._own_rules = {"L1", "L2", "L3", "L4", "L5"}
+    imported(ctx, C14.rule_K7)
     ctx.soft(rule_L4)
     try:
         L = Load(ctx)
@@ -1758,6 +1815,8 @@ SELFTEST = [
     {"name": "L1-group-over-sample_id", "kind": "break", "rule": "L1", "file": _P, "old": 'df.groupby(df["mutation_id"])["sample_id"].transform("size")', "new": 'df.groupby(df["sample_id"])["sample_id"].transform("size")'},
     {"name": "L1-cn-filter-dropped", "kind": "break", "rule": "L1", "file": _P, "old": '    df = df.loc[df["major_cn"] > 0]\n    return df', "new": "    return df"},
     {"name": "L1-dedup-before-group-filter", "kind": "break", "rule": "L1", "file": _P, "old": "    df = _remove_cn_zero_mutations(df)\n", "new": "    df = _remove_cn_zero_mutations(df).drop_duplicates()\n"},
+    {"name": "L1-cn-filter-complement-of-zero-under-any", "kind": "break", "rule": "L1", "file": _P, "old": '    df = df.loc[df["major_cn"] > 0]\n    return df', "new": '    is_zero = df["major_cn"] == 0\n    if is_zero.sum() > 0:\n        df = df.loc[~is_zero]\n    return df'},
+    {"name": "benign-cn-filter-complement-under-any", "kind": "benign", "file": _P, "old": '    df = df.loc[df["major_cn"] > 0]\n    return df', "new": '    gone = df["major_cn"] <= 0\n    if gone.any():\n        df = df.loc[~gone]\n    return df'},
     {"name": "L1-cn-filter-not-equal", "kind": "break", "rule": "L1", "file": _P, "old": 'df = df.loc[df["major_cn"] > 0]', "new": 'df = df.loc[df["major_cn"] != 0]'},
     {"name": "L2-sort-on-wrong-key", "kind": "break", "rule": "L2", "file": _P, "old": 'df = df.sort_values(by="mutation_id", ascending=True)', "new": 'df = df.sort_values(by="sample_id", ascending=True)'},
     {"name": "L2-positional-read", "kind": "break", "rule": "L2", "file": _P, "old": 'a = group.at[sample, "ref_counts"]', "new": 'a = group["ref_counts"].iloc[0]'},
